@@ -60,6 +60,13 @@ V_ENSURES(V_RET == ((s == NULL || s->len == 0) ? NULL : s->top))
 ;
 
 V_CONTRACT
+ssize_t m_stack_len(const m_stack_t *s)
+V_REQUIRES(s == NULL || V_S_OK(s))
+V_ASSIGNS()
+V_ENSURES(V_RET == (s == NULL ? -EINVAL : (ssize_t)s->len))
+;
+
+V_CONTRACT
 int m_stack_push(m_stack_t *s, void *data)
 V_REQUIRES(V_S_OK(s) && data != NULL)
 V_ASSIGNS(s->len, s->top, g.push_calls, g.push_arg)
